@@ -485,3 +485,119 @@ pub fn replay(ctx: &Ctx, sub: &str, case: &serde_json::Value) -> SubResult {
         _ => replay_case::<MtuCase, _>(ctx, sub, case, exec_mtu),
     }
 }
+
+// ------------------------------------------------------------------------------------------
+// C01 sub-check: a single key-value that (together with the digest) fits one datagram is
+// delivered by one complete handshake, whichever side initiates it.
+
+#[derive(Clone, Debug, Serialize, Deserialize)]
+pub struct MaxValueCase {
+    /// 0: "c", 1: a 49-byte id, 2: a 200-byte id, 3: the empty id
+    pub cluster: u8,
+    pub key_len: u8,
+    /// Bytes below the largest value length that still fits (0 = exact fit).
+    pub slack: u8,
+    pub seed: u16,
+    /// The lagging node initiates (SYN-ACK carries the value) or the holder does (ACK carries it).
+    pub lagging_initiates: bool,
+    /// Extra members known to both (their digest entries shrink the budget).
+    pub extra_members: u8,
+}
+
+fn stream_len(raw: usize) -> usize {
+    raw + raw.div_ceil(BLOCK) * 3 + 1
+}
+
+pub fn exec_max_value(case: &MaxValueCase, tally: &mut Tally) -> Result<(), Failure> {
+    with_paused_runtime(async {
+        let cluster = match case.cluster % 4 {
+            0 => "c".to_string(),
+            1 => "cluster-with-a-rather-long-identifier-0123456789".to_string(),
+            2 => "x".repeat(200),
+            _ => String::new(),
+        };
+        let fd = FdCfg::default();
+        let hid = simple_id("holder", 0, 9301);
+        let lid = simple_id("lagging", 0, 9302);
+        let mut h = build_node(&hid, &cluster, std::time::Duration::from_secs(3600), &fd, false, 0).chitchat;
+        let mut l = build_node(&lid, &cluster, std::time::Duration::from_secs(3600), &fd, false, 0).chitchat;
+        // Extra members, known to both with identical (empty) copies.
+        let extras: Vec<WId> = (0..case.extra_members % 6).map(|i| WId::v4(&format!("extra{i}"), 0, 9400 + i as u16)).collect();
+        for n in [&mut h, &mut l] {
+            if !extras.is_empty() {
+                let d: Vec<WNodeDigest> = extras.iter().map(|id| WNodeDigest { id: id.clone(), heartbeat: 3, last_gc: 0, max_version: 0 }).collect();
+                let (bytes, _) = encode_msg(&WMsg::Syn { cluster_id: cluster.clone(), digest: d }, Blocking::Canonical);
+                let (m, _) = real_decode(&bytes).map_err(|e| Failure::new("C01/setup", e))?;
+                n.verif_process_message(m);
+            }
+        }
+        // One warm-up handshake so that both know each other (the digests are then complete).
+        let syn = l.verif_create_syn_message();
+        let synack = h.verif_process_message(syn).ok_or_else(|| Failure::new("C01/setup", "no synack"))?;
+        let ack = l.verif_process_message(synack).ok_or_else(|| Failure::new("C01/setup", "no ack"))?;
+        h.verif_process_message(ack);
+        // Size the value: the reply carries the holder's digest (holder, lagging, extras), one
+        // member header and one key-value; blocks are assumed stored raw (class-4 content).
+        let id_len = |id: &WId| id.encoded_len();
+        let mut digest_len = 2 + id_len(&WId::from_real(&hid)) + 24 + id_len(&WId::from_real(&lid)) + 24;
+        for e in &extras {
+            digest_len += id_len(e) + 24;
+        }
+        let key = format!("K{}", "k".repeat(case.key_len as usize % 40));
+        let node_op = 1 + id_len(&WId::from_real(&hid)) + 16;
+        let kv_fixed = 1 + 2 + key.len() + 2 + 8 + 1;
+        let limit = if case.lagging_initiates { MAX_DATAGRAM - 4 - digest_len } else { MAX_DATAGRAM - 4 };
+        // largest value length with stream_len(node_op + kv_fixed + v) <= limit
+        let mut v = limit.saturating_sub(node_op + kv_fixed + 1);
+        while v > 0 && stream_len(node_op + kv_fixed + v) > limit {
+            v -= 1;
+        }
+        let v = v.min(65_535);
+        let vlen = v.saturating_sub(case.slack as usize % 90);
+        h.self_node_state().set(&key, expand_value(4, vlen, case.seed as u64));
+        let before = l.node_state(&hid).map(|ns| (ns.last_gc_version(), ns.max_version())).unwrap_or((0, 0));
+        let r = guard(|| {
+            let (a, b): (&mut chitchat::Chitchat, &mut chitchat::Chitchat) = if case.lagging_initiates { (&mut l, &mut h) } else { (&mut h, &mut l) };
+            let syn = a.verif_create_syn_message();
+            let synack = b.verif_process_message(syn).expect("synack");
+            let ack = a.verif_process_message(synack).expect("ack");
+            b.verif_process_message(ack);
+        });
+        if let Err(p) = r {
+            tally.discard(&format!("panic: {}", p.signature()));
+            return Ok(());
+        }
+        let after = l.node_state(&hid).map(|ns| (ns.last_gc_version(), ns.max_version())).unwrap_or((0, 0));
+        if after <= before {
+            return Err(Failure::new(
+                "C01/deliverable-value-not-delivered",
+                format!(
+                    "a complete handshake initiated by the {} node did not advance the lagging copy {:?}: the holder's single key-value ({} byte key, {} byte value; with the {} byte digest the reply would be {} bytes <= 65,507) was not sent",
+                    if case.lagging_initiates { "lagging" } else { "holder" },
+                    before,
+                    key.len(),
+                    vlen,
+                    digest_len,
+                    4 + if case.lagging_initiates { digest_len } else { 0 } + stream_len(node_op + kv_fixed + vlen)
+                ),
+            ));
+        }
+        tally.nontrivial(str_hash(&format!("{case:?}")));
+        tally.label(if case.slack % 90 == 0 { "exact_fit" } else { "near_fit" });
+        tally.sample(|| serde_json::json!({"value_len": vlen, "digest_len": digest_len, "lagging_initiates": case.lagging_initiates, "cluster_id_len": cluster.len()}));
+        Ok(())
+    })
+}
+
+pub fn max_value_strategy() -> impl Strategy<Value = MaxValueCase> {
+    (0u8..4, 0u8..40, prop_oneof![2 => Just(0u8), 3 => 0u8..8, 2 => 8u8..90], any::<u16>(), any::<bool>(), 0u8..6)
+        .prop_map(|(cluster, key_len, slack, seed, lagging_initiates, extra_members)| MaxValueCase { cluster, key_len, slack, seed, lagging_initiates, extra_members })
+}
+
+pub fn run_max_value(ctx: &Ctx, report: &mut Report) {
+    report.push(run_proptest(ctx, "max-size-value", ctx.cases(3_000, 100_000), 200, max_value_strategy, exec_max_value));
+}
+
+pub fn replay_max_value(ctx: &Ctx, sub: &str, case: &serde_json::Value) -> SubResult {
+    replay_case::<MaxValueCase, _>(ctx, sub, case, exec_max_value)
+}
